@@ -770,6 +770,10 @@ CORPUS = [
 ]
 
 
+# corpus texts the lexer/parser factoring is known not to cover (counted as model infidelity, not as violations)
+CORPUS_OUTSIDE_MODEL = {'SELECT ٣'}
+
+
 # --- the depth-2 matrix ------------------------------------------------------------------------------------------
 
 def leaf(i):
@@ -1006,9 +1010,9 @@ def brief(r):
 def run(tier, rng):
     violations = []
     quick = tier == 'quick'
-    n_rand = 500 if quick else 40000
+    n_rand = 400 if quick else 25000
     nrender = 1 if quick else 2
-    n_mut = 1500 if quick else 60000
+    n_mut = 1200 if quick else 40000
     depths = [1, 2, 2, 3] if quick else [1, 2, 2, 3, 3, 4]
     scale = float(os.environ.get('C06_SCALE', '1'))
     n_rand, n_mut = int(n_rand * scale), int(n_mut * scale)
@@ -1061,6 +1065,7 @@ def run(tier, rng):
     accepted = 0
     infid = []
     gsig = set()
+    csig = set()
     for text, (ri, rf), m in zip(muts, both, model):
         if ri[0] == 'ok':
             accepted += 1
@@ -1075,6 +1080,12 @@ def run(tier, rng):
                     {'text': small, 'impl': a, 'grammar': b}, signature=sig))
             continue
         want = [ri[1]] if ri[0] == 'ok' else []
+        if m != want and text in CORPUS and text not in CORPUS_OUTSIDE_MODEL and len(csig) < 3 and text not in csig:
+            # the hand corpus is inside the model's domain: there the Coq parser is the oracle for both TatSu parsers
+            csig.add(text)
+            violations.append(core.Violation(
+                'corpus-vs-model', f'text {text!r}: beanquery.parser.parse gives {brief(ri)}, the Coq parser gives {brief(m)}',
+                {'text': text, 'impl': ri, 'model': m}, signature='corpus:' + text))
         if m != want:
             infid.append((text, 'impl accepts' if ri[0] == 'ok' else f'impl rejects ({ri[1]})',
                           'model accepts' if m else 'model rejects'))
@@ -1227,6 +1238,9 @@ def shrink_tree(st, rng, rounds=8):
 
 
 def replay(rec):
+    if 'model' in rec:
+        ri = run_impl(rec['text'])
+        return ([ri[1]] if ri[0] == 'ok' else []) == rec['model']
     if 'impl' in rec and 'grammar' in rec:
         a, b = run_both(rec['text'])
         return a == b and a[0] != 'odd'
